@@ -11,7 +11,7 @@ AUDIT = "C20"
 THEOREMS = [
     "Typedpy.C20.no_shared_writes_frame", "Typedpy.C20.no_shared_writes_linearizable",
     "Typedpy.C20.thread_private_frame", "Typedpy.C20.conflict_free_linearizable", "Typedpy.C20.conflictFreeB_sound",
-    "Typedpy.C20.C20_partial",
+    "Typedpy.C20.C20_partial", "Typedpy.C20.no_foreign_values",
     "Typedpy.C20.counter_wrong_element_extract_field_value", "Typedpy.C20.counter_missing_key_extract_field_value",
     "Typedpy.C20.counter_wrong_field_named_extract_field_value", "Typedpy.C20.not_linearizable_extract_field_value",
     "Typedpy.C20.counter_wrong_element_tuple", "Typedpy.C20.counter_missing_key_set",
